@@ -28,5 +28,23 @@ SPEC = dict(
 )
 
 # Set CLAIMED = True once the check is clean on the unchanged tree (exit 0, KNOWN-FINDING lines allowed).
-CLAIMED = False
-MANIFEST = dict(level="exploration", engine="seqx", technique="TODO", text="TODO", note="TODO")
+CLAIMED = True
+MANIFEST = dict(
+    level="exploration",
+    engine="seqx+enumx",
+    technique="bounded exhaustive history exploration (prefix replay on a fresh real index per sequence, no-op pruning, id and listing "
+              "oracle after every step) plus exhaustive enumeration of predicate trees over a finite atom grammar, both against a "
+              "brute-force reference (Go regexp, unanchored, absent tag = empty string) on the real engine/index/tsi code",
+    text="Every operation sequence over {insert one of 8 series keys, index flush, cache clear, restart, reopen} up to length 4 (quick) / "
+         "5, and 6 on a 5-key subset (thorough) is executed on a fresh MergeSetIndex; after every step each key's id is looked up "
+         "(defined iff inserted, pairwise distinct, unchanged since first assignment) and the unconditional series, tag-value and "
+         "cardinality listings are compared with the model. Every predicate tree with up to 2 (quick) / 3 (thorough) atoms over "
+         "{host,region} x {=,!=,=~,!~} x 10 values with AND/OR/parentheses is evaluated through five search entry points on five fixed "
+         "index states and compared with brute force over the visible series; every one-atom predicate on every explored state. "
+         "Exhaustive within these bounds. Four genuine regex defects and one duplicate-id defect are reported as known findings "
+         "(three small fixes proposed).",
+    note="Trusts: Go runtime and regexp; the harness's brute-force evaluator; influxql parser for the tree shape. The table's "
+         "background flusher/mergers are stopped (visibility and layout are driven by the explored ops only); cache sizes 32 MB; "
+         "tag arrays, bloom filter, Perl-regex mode, deletes and concurrent writers are out of scope; keys/values outside the 8-key "
+         "alphabet and histories longer than the bound are not covered.",
+)
